@@ -154,7 +154,7 @@ def spec_function(text, globs):
   else:
     body = [ast.Pass()]
   fdef = ast.FunctionDef(
-    name="x", args=ast.arguments(posonlyargs=[], args=[ast.arg(arg="rec"), ast.arg(arg="table")],
+    name="_c19_spec_function", args=ast.arguments(posonlyargs=[], args=[ast.arg(arg="rec"), ast.arg(arg="table")],
                                  kwonlyargs=[], kw_defaults=[], defaults=[]),
     body=body, decorator_list=[], type_params=[])
   mod = ast.Module(body=[fdef], type_ignores=[])
@@ -165,7 +165,9 @@ def spec_function(text, globs):
     raise NotValid("invalid", "does not compile as a function body: %s" % type(e).__name__)
   ns = dict(globs)
   exec(code, ns)
-  return ns["x"]
+  f = ns.pop("_c19_spec_function")      # not visible to the formula as a global
+  f.__globals__.pop("_c19_spec_function", None)
+  return f
 
 
 class PlainRecord(object):
@@ -530,6 +532,11 @@ def text_category(text):
   standard library (tokenize / ast / compile)."""
   if "\x00" in text:
     return "contains-NUL"
+  import re
+  if re.search(r"\r(?!\n)", text):
+    return "contains-lone-CR"
+  if "\f" in text:
+    return "contains-form-feed"
   try:
     src = spec_translate(text)
   except NotValid as e:
@@ -588,12 +595,12 @@ def main():
     "gencode.GenCode.make_module [all texts of length<=3 over %r]" % "".join(ALPHABET12),
     call_l1, {"C19.isolated": ens_isolated_l1, "C19.meaning": ens_meaning},
     classify=classify, nontrivial=nontrivial, show=lambda a: a), cases_l1_exhaustive,
-    exhaustive=True, limit_quick_s=25)
+    exhaustive=True, limit_quick_s=15)
   ex = rep.coverage.get("exhaustive", False)
   fn.check(rep, fn.FnContract(
     "gencode.GenCode.make_module [special cases + sampled texts]",
     call_l1, {"C19.isolated": ens_isolated_l1, "C19.meaning": ens_meaning},
-    classify=classify, nontrivial=nontrivial, show=lambda a: a), cases_l1, limit_quick_s=25)
+    classify=classify, nontrivial=nontrivial, show=lambda a: a), cases_l1, limit_quick_s=20)
   fn.check(rep, fn.FnContract(
     "Engine.apply_user_actions [ModifyColumn / AddColumn / AddTable with the text]",
     call_l2, {"C19.isolated": ens_isolated_l2, "C19.meaning": ens_meaning},
